@@ -56,3 +56,26 @@ def go_str(s):
 
 def gen_pairs(name, pairs):
     return 'var %s = [][2]int{%s}\n' % (name, ', '.join('{%d, %d}' % p for p in pairs))
+
+
+def gen_label_code(name, dfa, prefix='refCode'):
+    """Integer-coded labels (summarisable): 0 = not accepting."""
+    labs = sorted(set(dfa.label.values()))
+    code = {l: i + 1 for i, l in enumerate(labs)}
+    out = ['const (']
+    for l, c in code.items():
+        ident = ''.join(ch if ch.isalnum() else '_%02x' % ord(ch) for ch in l)
+        out.append('\t%s%s = %d' % (prefix, ident, c))
+    out.append(')')
+    out.append('func %s(q int) int {' % name)
+    out.append('\tswitch q {')
+    bylab = {}
+    for q, l in sorted(dfa.label.items()):
+        bylab.setdefault(l, []).append(q)
+    for l, qs in sorted(bylab.items()):
+        out.append('\tcase %s:' % ', '.join(str(q) for q in qs))
+        out.append('\t\treturn %d' % code[l])
+    out.append('\t}')
+    out.append('\treturn 0')
+    out.append('}')
+    return '\n'.join(out) + '\n'
